@@ -201,6 +201,77 @@ def task_bond_labels(pr, repo):
         pr.explore(ex, thunk, 'bond labels %s-%s' % (e1, e2))
 
 
+def task_bond_path_labels(pr, repo):
+    """BP (relational): whether two atoms are within n bonds of each other is a question about the bond graph only: the same graph
+    with other (arbitrary, independent) chain ids / residue numbers gives the same answer."""
+    ex = Executor(repo)
+    fi = repo.func('propka.atom.Atom.is_atom_within_bond_distance')
+    pr.under_contract(fi)
+    A = repo.cls('propka.atom.Atom')
+    for nbonds in (1, 2, 3, 4, 5):
+        def thunk(ex, ctx, nbonds=nbonds):
+            res = []
+            for run in (0, 1):
+                atoms = [record('p%d_%d' % (run, i), A, bonded_atoms=[], res_num=I('p%d_%d_resnum' % (run, i)),
+                                chain_id=mk_str([I('p%d_%d_chain' % (run, i))]), icode=mk_str([I('p%d_%d_icode' % (run, i))]),
+                                name='X%d' % i, element='C') for i in range(nbonds + 1)]
+                side = record('side%d' % run, A, bonded_atoms=[atoms[0]], res_num=I('s%d_resnum' % run), chain_id='A', icode=' ',
+                              name='S', element='C')
+                atoms[0].attrs['bonded_atoms'].append(side)
+                for i in range(nbonds):
+                    atoms[i].attrs['bonded_atoms'].append(atoms[i + 1])
+                    atoms[i + 1].attrs['bonded_atoms'].append(atoms[i])
+                res.append(ex.call_function(fi, [atoms[-1], 4, 1], self_obj=atoms[0]))
+            ctx.oblige('BP[%d bonds apart]: "within 4 bonds" is the same for any labelling of the same bond graph (and true iff the '
+                       'path has at most 4 bonds)' % nbonds,
+                       And(Sym(to_bool(res[0])) == Sym(to_bool(res[1])), Sym(to_bool(res[0])) == Sym(to_bool(nbonds <= 4))))
+        pr.explore(ex, thunk, 'bond path labels %d' % nbonds)
+
+
+def task_pair_order_labels(pr, repo):
+    """PO (relational): the pair routines treat (group1, group2) in the order the pair loop hands them over - which partner plays which
+    role may not depend on chain ids or residue numbers.  The H-bond routine is order sensitive (the hydrogen of the second group is
+    used when both are angular dependent), so its contract returns a value per ORDERED pair."""
+    from pyvc.core import Builtin
+    ex = Executor(repo)
+    D_ = 'propka.determinants.'
+    for fname in ('add_sidechain_determinants', 'add_coulomb_determinants'):
+        fi = repo.func(D_ + fname)
+        pr.under_contract(fi)
+
+        def thunk(ex, ctx, fi=fi, fname=fname):
+            res = []
+            hb = {(1, 2): R('hb_12'), (2, 1): R('hb_21')}
+            for run in (0, 1):
+                gs = {}
+                for k in (1, 2):
+                    g = C16.sym_group(repo, 'g%d_%d' % (k, run))
+                    g.attrs['charge'] = R('q%d' % k)
+                    g.attrs['model_pka'] = R('pkm%d' % k)
+                    g.attrs['__k__'] = k
+                    g.attrs['atom'] = record('a%d_%d' % (k, run), repo.cls('propka.atom.Atom'), res_num=I('g%d_%d_resnum' % (k, run)),
+                                             chain_id=mk_str([I('g%d_%d_chain' % (k, run))]), icode=' ')
+                    gs[k] = g
+                version = record('version', None)
+                version.attrs['hydrogen_bond_interaction'] = Builtin('hbi', lambda ex_, a, b: hb[(a.attrs['__k__'], b.attrs['__k__'])])
+                version.attrs['electrostatic_interaction'] = Builtin('ei', lambda ex_, a, b, d: hb[(a.attrs['__k__'], b.attrs['__k__'])])
+                ex.contracts[D_ + 'add_coulomb_acid_pair'] = lambda ex_, c_, f_, a, k, so: res_calls.append(('acid', a[0].attrs['__k__'], a[1].attrs['__k__']))
+                ex.contracts[D_ + 'add_coulomb_base_pair'] = lambda ex_, c_, f_, a, k, so: res_calls.append(('base', a[0].attrs['__k__'], a[1].attrs['__k__']))
+                ex.contracts[D_ + 'add_coulomb_ion_pair'] = lambda ex_, c_, f_, a, k, so: res_calls.append(('ion', a[0].attrs['__k__'], a[1].attrs['__k__']))
+                res_calls = []
+                if fname == 'add_sidechain_determinants':
+                    ex.call_function(fi, [gs[1], gs[2], version])
+                else:
+                    ex.call_function(fi, [gs[1], gs[2], R('dist'), version])
+                res.append(([d.attrs['value'] for d in gs[1].attrs['determinants']['sidechain']],
+                            [d.attrs['value'] for d in gs[2].attrs['determinants']['sidechain']], list(res_calls)))
+            a, b = res
+            same = len(a[0]) == len(b[0]) and len(a[1]) == len(b[1]) and a[2] == b[2]
+            ctx.oblige('PO[%s]: the terms given to the two partners are the same for any chain ids / residue numbers of the pair' % fname,
+                       And(same, *[x == y for x, y in zip(a[0] + a[1], b[0] + b[1])]) if same else False)
+        pr.explore(ex, thunk, 'pair order labels ' + fname)
+
+
 def run(pr, repo):
     pr.level = 'other'
     pr.explanation = ('deductive core (VC + frame census) plus bounded relabelling monitor; level "other" because the insertion-code '
@@ -210,7 +281,7 @@ def run(pr, repo):
     pr.parallel([(task_same_residue, ()), (task_eq_label, ()), (task_sort_key, ()), (C05.task_set_determinants, ()),
                  (C05.task_iterative, ()), (C08.task_average_twins, ()),
                  # bonds and disulfide flags are decided by elements and distance only - residue labels are symbolic there
-                 (task_bond_labels, ()), (task_intrinsic, ())])
+                 (task_bond_labels, ()), (task_bond_path_labels, ()), (task_pair_order_labels, ()), (task_intrinsic, ())])
     for f, allowed in READERS.items():
         frames.clause(pr, repo, 'readers of .%s are the declared ones' % f, f, 'readers', allowed)
     pr.assumptions += ['atom order (changed by relabelling through the sort key) only permutes commutative sums: A-REAL',
